@@ -249,3 +249,6 @@ func armSiteFault(s *sim.Sim, f *sim.Stream, name string, fn func()) string {
 	s.AtSite(site, nth, name, fn)
 	return fmt.Sprintf("%s#%d", site, nth)
 }
+
+// IsRaceBuild reports whether this binary was built with the race detector.
+func IsRaceBuild() bool { return raceBuild }
